@@ -361,6 +361,9 @@ def run(rep):
             sub = _Renamed(rep, {"R-C06-provision": "R-C03-provision"})
             C06.rule_provision(sub, t, m)
         rep.guarded("R-C03-provision", prov)
+    import C13
+    rep.guarded("R-C13-report", C13.rule_report)
+    rep.guarded("R-C13-order", C13.rule_order)
     import C15
     rep.guarded("R-C03-kernel-bounds", C15.rule_kernel_bounds, "R-C03-kernel-bounds")
     import C08
@@ -372,9 +375,11 @@ def run(rep):
     rep.floor("R-C03-history", 2)
     rep.floor("R-C03-alloc", 4)
     rep.floor("R-C03-validate-exact", 2)
-    rep.floor("R-C03-provision", 13)
+    rep.floor("R-C03-provision", 15)
     rep.floor("R-C03-kernel-bounds", 7)
     rep.floor("R-C03-window", 10)
+    rep.floor("R-C13-report", 11)
+    rep.floor("R-C13-order", 28)
     rep.clause("R-C03-guard", "each of the 4 kernel wrappers asserts index+length < wave.len() and subindex < nbr_sincs before its unsafe code; those fields are the dimensions given to make_sincs; sinc_len % 8 == 0 asserted")
     rep.clause("R-C03-kernel-bounds", "given the asserts, every get_unchecked / SIMD load in the 7 kernels stays inside wave[index..index+length) and the packed table")
     rep.clause("R-C03-chan", "per-channel (unchecked) accesses are indexed by the enumerate index of channel_mask; buffer and mask have nbr_channels entries and are never resized")
@@ -382,6 +387,7 @@ def run(rep):
     rep.clause("R-C03-margin", "fixed-input: loop guard idx < end_idx with end_idx = chunk − K − ceil(max step) and K ≥ kernel right reach")
     rep.clause("R-C03-alloc", "the per-channel buffer allocated by the constructor is at least history + the largest input the API can request (input_frames_max / construction-time chunk): inequality proved by relaxing ceil/floor soundly and checking coefficient signs")
     rep.clause("R-C03-history", "fixed-input: history in front of new data covers the frames a large-step call can leave unevaluated")
+    rep.clause("R-C13-report / R-C13-order", "the unchecked accesses rely on validation: validate_buffers length-checks every active channel and dominates all data access (shared with C13)")
     rep.clause("R-C03-validate-exact", "validate_buffers accepts exactly-sized buffers")
     rep.clause("R-C03-provision", "fixed-output: requested input covers the closed-form read position (shared with C06)")
     rep.clause("R-C03-window", "polynomial resamplers: unchecked slice width = taps of the blend function, start = floor(idx) − k + pre-roll")
